@@ -195,7 +195,7 @@ def scenario_scope(res, pid, rng, tier):
     res.nt(("scn", "cidr"))
 
     # ---- F. IPv6 values below 2^32: anonymize, then undo with a fresh anonymizer; whole-address preservation
-    small = ["::5", "::1:2", "::ffff", "::1:0:0", "::%x" % rng.randint(1, 65535), "::%x:%x" % (rng.randint(1, 65535), rng.randint(0, 65535))]
+    small = ["::ffff:c0a8:101", "::ffff:0:c0a8:101", "64:ff9b::c0a8:101", "::ffff:a01:203", "::5", "::1:2", "::ffff", "::1:0:0", "::%x" % rng.randint(1, 65535), "::%x:%x" % (rng.randint(1, 65535), rng.randint(0, 65535))]
     ls = ["set address %s" % a for a in small]
     ctx = {"salt": salt}
     got = _try(fails, "small IPv6 values", ctx, lambda: _run(_fa(salt), ls))
@@ -288,6 +288,20 @@ def scenario_scope(res, pid, rng, tier):
         IpAnonymizer(salt, shared_p, shared_n, preserve_suffix=8)
         later = FileAnonymizer(anon_pwd=False, anon_ip=True, salt=salt, preserve_prefixes=shared_p, preserve_networks=None, preserve_suffix_v4=8)
         return _run(later, ls)
+
+    def late_bound():
+        lp, ln_ = list(keep_p), [net]
+        obj = FileAnonymizer(anon_pwd=False, anon_ip=True, salt=salt, preserve_prefixes=lp, preserve_networks=ln_, preserve_suffix_v4=8)
+        lp.append("150.0.0.0/8")          # the caller goes on using its lists (e.g. to build another anonymizer)
+        del ln_[:]
+        ln_.append("20.0.0.0/8")
+        return _run(obj, ls + ["ip address 20.1.2.3", "ip address 150.20.1.1"])
+    got_lb = _try(fails, "option lists changed by the caller after construction", ctx, late_bound)
+    res.evaluations += len(ls) + 2
+    if got_lb is not None:
+        ls_lb = ls + ["ip address 20.1.2.3", "ip address 150.20.1.1"]
+        _cmp(fails, "an anonymizer follows later changes of the list objects it was constructed with instead of the values it was given",
+             ctx, ls_lb, got_lb, spec_lines(salt, ls_lb, prefixes=keep_p, nets=[net]))
     got = _try(fails, "shared option lists", ctx, shared)
     res.evaluations += len(ls)
     if got is not None:
@@ -317,6 +331,69 @@ def scenario_scope(res, pid, rng, tier):
             _cmp(fails, "undo of an anonymized line (%d characters, original %d) does not restore its addresses" % (len(got[0]), len(line)),
                  dict(ctx, anonymized_length=len(got[0])), got, back, exp_b)
     res.nt(("scn", "growing"))
+
+    # ---- M. a line that the secret stage scrubs from a keyword onward: addresses in front of the keyword are still replaced
+    from netconan.anonymize_files import FileAnonymizer as _FA
+    scr = ["ntp server %s key-string 7 0822455D0A16" % v4(rnd()), "peer 2001:db8:85a3::%x key-string 7 13061E010803" % rng.randint(1, 9999),
+           "neighbor %s cable shared-secret 7 0822455D0A16" % v4(rnd()), "router ospf 1 area %s message-digest-key 1 md5 encrypted 13061E010803" % v4(rnd())]
+    ctx = {"salt": salt, "features": "passwords and addresses"}
+
+    def scrub():
+        o_ = io.StringIO()
+        _FA(anon_pwd=True, anon_ip=True, salt=salt, preserve_suffix_v4=8, preserve_suffix_v6=8).anonymize_io(io.StringIO("".join(x + "\n" for x in scr)), o_)
+        return o_.getvalue().split("\n")[:-1]
+    got = _try(fails, "scrubbed lines", ctx, scrub)
+    res.evaluations += len(scr)
+    if got is not None:
+        exp_ = spec_lines(salt, scr)
+        for ln, g, e in zip(scr, got, exp_):
+            k = min(i for i in (ln.find(" key-string"), ln.find(" cable shared-secret"), ln.find(" message-digest-key")) if i >= 0)
+            ke = e.find(" key-string") if " key-string" in e else e.find(" cable shared-secret") if " cable" in e else e.find(" message-digest-key")
+            if not g.startswith(e[:ke]):
+                fails.append(dict(ctx, kind="an address in front of a scrubbed secret is not replaced by the image of the address", line=ln, output=g,
+                                  expected_start=e[:ke]))
+    res.nt(("scn", "scrub"))
+
+    # ---- N. a second anonymizer with the same salt and options in this process: its own map lists what it replaced
+    shared_lines = ["ntp server 151.101.1.67", "ip address %s" % v4(rnd()), "ip address %s" % v4(rnd())]
+    ctx = {"salt": salt, "earlier": "another FileAnonymizer with the same salt and options processed the same lines"}
+
+    def second_map():
+        _run(_fa(salt), shared_lines)
+        ob2 = _fa(salt)
+        out2 = _run(ob2, shared_lines + ["ip address %s" % v4(rnd())])
+        b_ = io.StringIO()
+        ob2.anonymizer4.dump_to_file(b_)
+        return out2, dict(x.split("\t") for x in b_.getvalue().splitlines() if "\t" in x)
+    r2 = _try(fails, "map of a second anonymizer", ctx, second_map)
+    res.evaluations += len(shared_lines)
+    if r2 is not None:
+        for ln, g in zip(shared_lines, r2[0]):
+            a_, b_ = ln.split()[-1], g.split()[-1]
+            if a_ != b_ and r2[1].get(a_) != b_:
+                fails.append(dict(ctx, kind="an address replaced in the output has no line (or another replacement) in the map of the anonymizer that replaced it",
+                                  line=ln, output=g, map_entry=r2[1].get(a_)))
+    res.nt(("scn", "second-map"))
+
+    # ---- O. command line: a salt with blanks, tabs or quotes at its ends is used as it stands (output and map)
+    for cs in ("pepper ", " lead", "tab\t", " ", "lab\"", "'q'"):
+        body = "".join("ip host %s\n" % v4(rnd()) for _ in range(4))
+        st, outs, dump = run_cli(["-a", "-s", cs], {"a.cfg": body}, want_dump=True)
+        res.evaluations += 4
+        ctx = {"argv": ["-a", "-s", cs, "-d", "<map>"], "input": body}
+        if st != "ok" or "a.cfg" not in outs:
+            fails.append(dict(ctx, kind="command line run failed", status=st))
+            continue
+        ls_ = body.split("\n")[:-1]
+        _cmp(fails, "command line: the mapping is not the one of the salt that was given (blanks / quotes at its ends)", ctx, ls_,
+             outs["a.cfg"].split("\n")[:-1], spec_lines(cs, ls_))
+        if dump is not None:
+            want = dict((l.split()[-1], e.split()[-1]) for l, e in zip(ls_, spec_lines(cs, ls_)))
+            got_d = dict(x.split("\t") for x in dump.splitlines() if "\t" in x)
+            bad = [(k, v, got_d.get(k)) for k, v in want.items() if k != v and got_d.get(k) != v]
+            if bad:
+                fails.append(dict(ctx, kind="command line: a pair in the dumped map disagrees with the mapping of the salt that was given", pairs=bad[:3]))
+    res.nt(("scn", "cli-salt"))
 
     # ---- L. the empty string is a salt like any other: two anonymizers built with it agree, and compute its map
     ls = ["ip address %s" % v4(rnd()) for _ in range(5)] + ["set address 2001:db8::%x" % rng.randint(1, 9999)]
